@@ -2,8 +2,8 @@
 import os, sys, json, time, re, hashlib
 
 ROOT = os.path.dirname(os.path.dirname(os.path.abspath(__file__)))
-EVID = os.path.join(ROOT, 'evidence')
-REPLAYS = os.path.join(ROOT, 'replays')
+EVID = os.environ.get('VERIF_EVIDENCE_DIR') or os.path.join(ROOT, 'evidence')      # override only used by seeded/run_against.sh
+REPLAYS = os.environ.get('VERIF_REPLAYS_DIR') or os.path.join(ROOT, 'replays')
 KNOWN = os.path.join(ROOT, 'known_findings.txt')
 
 
